@@ -263,7 +263,7 @@ where
 pub(crate) struct CacheProcessor<V, U, CB, S> {
     insert_buf_rx: Receiver<Item<V>>,
     stop_rx: Receiver<()>,
-    clear_rx: Receiver<()>,
+    clear_rx: Receiver<Signal>,
     metrics: Arc<Metrics>,
     store: Arc<ShardedMap<V, U, S, S>>,
     policy: Arc<AsyncLFUPolicy<S>>,
@@ -397,7 +397,7 @@ pub struct AsyncCache<
 
     pub(crate) stop_tx: Sender<()>,
 
-    pub(crate) clear_tx: Sender<()>,
+    pub(crate) clear_tx: Sender<Signal>,
 
     pub(crate) callback: Arc<CB>,
 
@@ -498,15 +498,14 @@ where
         self.clear_in().await
     }
 
+    // Ask the processing task to drain the insert buffer and to empty the policy,
+    // the store and the metrics, and wait until it has done so.
     async fn clear_in(&self) -> Result<(), CacheError> {
-        // stop the process item thread.
-        self.clear_tx.send(()).await.map_err(|e| {
+        let wg = WaitGroup::new();
+        self.clear_tx.send(Signal::new(&wg)).await.map_err(|e| {
             CacheError::SendError(format!("fail to send clear signal to working thread {}", e))
         })?;
-
-        self.policy.clear();
-        self.store.clear();
-        self.metrics.clear();
+        wg.wait().await;
 
         Ok(())
     }
@@ -696,7 +695,7 @@ where
         policy: Arc<AsyncLFUPolicy<S>>,
         insert_buf_rx: Receiver<Item<V>>,
         stop_rx: Receiver<()>,
-        clear_rx: Receiver<()>,
+        clear_rx: Receiver<Signal>,
         metrics: Arc<Metrics>,
         callback: Arc<CB>,
     ) -> Self {
@@ -735,10 +734,14 @@ where
                             tracing::error!("fail to handle cleanup event, error: {}", e);
                         }
                     },
-                    _ = self.clear_rx.recv().fuse() => {
+                    signal = self.clear_rx.recv().fuse() => {
                         if let Err(e) = CacheCleaner::new(&mut self).clean().await {
                             tracing::error!("fail to handle clear event, error: {}", e);
                         }
+                        self.policy.clear();
+                        self.store.clear();
+                        self.metrics.clear();
+                        drop(signal);
                     },
                     _ = self.stop_rx.recv().fuse() => {
                         _ = self.handle_close_event();
@@ -759,6 +762,8 @@ where
         while let Ok(item) = self.insert_buf_rx.try_recv() {
             CacheCleaner::new(self).handle_item(item);
         }
+        // ... or on a clear that will no longer be performed
+        while self.clear_rx.try_recv().is_ok() {}
         Ok(())
     }
 
